@@ -382,6 +382,65 @@ pub fn loops_family(ctx: &mut Ctx) {
             ctx.record(id, &okey, verdict, || format!("{} seeded={} program {}", label, seeded, prog.render()));
         }
     }
+    // bodies that act on the EXEC stack beneath themselves (EXEC.POP as "break", EXEC.DUP, EXEC.K, EXEC.SWAP):
+    // here the documented *unfolding* decides what happens, so the reference is the reference
+    // interpreter running the documented single steps (not the structured whole-run meaning)
+    let p = || Tree::ins("PROBE");
+    let breakers: Vec<Tree> = vec![
+        Tree::L(vec![p(), Tree::ins("INTEGER.DUP"), Tree::I(2), Tree::ins("INTEGER.="), Tree::ins("EXEC.IF"), Tree::ins("EXEC.POP"), Tree::ins("NOOP")]),
+        Tree::L(vec![p(), Tree::ins("INDEX.CURRENT"), Tree::I(1), Tree::ins("INTEGER.="), Tree::ins("EXEC.IF"), Tree::ins("EXEC.POP"), Tree::ins("NOOP")]),
+        Tree::ins("EXEC.DUP"),
+        Tree::ins("EXEC.POP"),
+        Tree::L(vec![p(), Tree::ins("EXEC.K")]),
+        Tree::L(vec![p(), Tree::ins("EXEC.SWAP")]),
+    ];
+    let mut progs2: Vec<(String, Tree)> = vec![];
+    for body in &breakers {
+        for n in 0..=3 {
+            progs2.push((format!("EXEC.LOOP n={} exec-touching body", n), Tree::L(vec![Tree::I(n), Tree::ins("INDEX.DEFINE"), Tree::ins("EXEC.LOOP"), body.clone(), Tree::I(99), p()])));
+        }
+        for v in int_vectors(3) {
+            progs2.push((format!("INTVECTOR.LOOP v={:?} exec-touching body", v), Tree::L(vec![Tree::IV(v), Tree::ins("INTVECTOR.LOOP"), body.clone(), Tree::I(99), p()])));
+        }
+    }
+    for (label, prog) in &progs2 {
+        let id = match ctx.take() {
+            Some(id) => id,
+            None => continue,
+        };
+        ctx.transitions += 1;
+        ctx.states += 1;
+        let mut m0 = M::default();
+        m0.i = vec![5];
+        m0.e = vec![prog.clone()];
+        let mut exp = m0.clone();
+        let mut exp_log = vec![];
+        let mut n = 0;
+        while n < 3_000 && ref_step(&mut exp, &mut exp_log, false) {
+            n += 1;
+        }
+        let (okey, verdict) = match run_real(&mut real, &m0, 3_000) {
+            Err(p) => (panic_class(&p), Verdict::fail("loop", &panic_class(&p), p)),
+            Ok((g, log, _steps, _done)) => {
+                let okey = format!("{:?}|{}", log, g.key());
+                let mut problems = vec![];
+                if log != exp_log {
+                    problems.push(format!("probe log {:?} expected {:?}", log, exp_log));
+                }
+                let d = exp.diff(&g);
+                if !d.is_empty() {
+                    problems.push(format!("final state differs in {:?}: {{{}}} expected {{{}}}", d, g.key(), exp.key()));
+                }
+                if problems.is_empty() {
+                    (okey, Verdict::Pass)
+                } else {
+                    (okey, Verdict::fail(label.split(' ').next().unwrap_or("loop"), "unfolding", problems.join("; ")))
+                }
+            }
+        };
+        ctx.nontrivial_mark(&okey);
+        ctx.record(id, &okey, verdict, || format!("{} program {}", label, prog.render()));
+    }
     let _ = probe_of;
 }
 
